@@ -1258,6 +1258,9 @@ class Interp:
             if self.homt is not None:
                 res = self.homt.compare(self, op, a, b, res)
             return res
+        if isinstance(b, AVec) and isinstance(a, int) \
+                and isinstance(op, (ast.Eq, ast.NotEq)):
+            a, b = b, a                  # `1 == v` is `v == 1`
         if isinstance(a, AVec) and isinstance(b, int):
             if isinstance(op, ast.Eq) and b == 1:
                 out = []
